@@ -55,15 +55,15 @@ META = {
     "C03": {
         "technique": "stateful property-based testing (rapid): Values() vs reference sort of the model set with the harness's own comparator; plus generated concurrent programs under the cooperative scheduler asserting the linearisation clauses on reads and final states",
         "text": "After every operation Values() (and ToSnapshot().Values) is checked complete, duplicate-free, causal and equal to the reference sort when the ordering is strict-total on the set (order-free clauses otherwise). Exploration.",
-        "note": "Comparator re-implemented in the harness (time, clock-id bytes, hash string); trusts Go's sort.",
+        "note": "Comparator re-implemented in the harness (time, clock-id bytes, hash string; the direction of the two tie-breaks is taken from the library by probing one fixed pair each); trusts Go's sort.",
     },
     "C04": {
         "technique": "stateful property-based testing (rapid): per-append postconditions against the model state preceding the append; plus generated concurrent programs under the cooperative scheduler (predecessors == heads at commit time, clock dominance, single head at unlock)",
-        "text": "Every append in generated histories (incl. after merges, identity changes, rebuilds from entries, reloads from the store, initial clocks up to 2^40) is checked: next == model heads, clock id == writer key, time > every held time, single head, references within the causal past / disjoint from next / duplicate-free / <= floor(log2(pc))+2. Exploration.",
+        "text": "Every append in generated histories (incl. after merges, identity changes, rebuilds from entries, reloads from the store, initial clocks up to 1.7e18, SortFn LastWriteWins / hash / FirstWriteWins) is checked: next == model heads, clock id == writer key, time > every held time, single head, references within the causal past / disjoint from next / duplicate-free / at most one per power of two up to pc (+1 when the log is shorter than pc). Exploration.",
         "note": "Times stay far below MaxInt; the reload step relies on the loaders (C09).",
     },
     "C05": {
-        "technique": "stateful property-based testing (rapid): first-seen digests of every entry (by hash and by object identity) re-checked after every operation on every replica",
+        "technique": "stateful property-based testing (rapid): first-seen digests of every entry (by hash and by object identity) re-checked after every operation on every replica; plus generated concurrent programs under the cooperative scheduler (no entry vanishes at any write-unlock, the final view contains everything ever held or seen)",
         "text": "After every operation every hash ever seen in a replica is still retrievable with an unchanged content digest, every entry object keeps its full digest (aliasing across replicas and loaded logs), Len never decreases, previous Values() is a subsequence of the new one (strict-total case). Exploration.",
         "note": "Bounded merges excluded (C16); a rebuild/reload counts as the same log.",
     },
@@ -89,7 +89,7 @@ META = {
     },
     "C10": {
         "technique": "property-based testing (rapid): bounded loads vs cardinality / membership / recency oracle from the registry, metamorphic comparison across three generated schedules",
-        "text": "Generated logs x loaders (incl. arbitrary supplied entries and entry hashes) x limits 0..size+3 x three executions with different concurrency and completion order: |result| == min(max(n,k),size), supplied ⊆ result, nothing excluded strictly newer than an included non-supplied entry, same result set across the executions. Exploration. Found and repaired three loader defects.",
+        "text": "Generated logs x loaders (incl. arbitrary supplied entries and entry hashes) x limits 0..size+3 x three executions with different concurrency and completion order: |result| == min(max(n,k),size), supplied ⊆ result, nothing excluded strictly newer than an included non-supplied entry, same result set across the executions; the caller may keep one limit variable for all its loads. Exploration. Found and repaired three loader defects.",
         "note": "Ties in (time, clock id) may resolve either way; set equality across schedules asserted only without such ties.",
     },
     "C11": {
@@ -119,13 +119,13 @@ META = {
     },
     "C16": {
         "technique": "property-based testing (rapid): bounded merge vs suffix of the reference linearisation of the union; twin replica for n >= total",
-        "text": "Generated pairs of logs and bounds 0..total+3; result must be the last min(n,total) of the reference sort (exact when strict-total), heads the unreferenced among them, and n >= total identical to the unbounded merge of a twin. Exploration. Found and repaired the n > total panic.",
+        "text": "Generated pairs of logs and bounds 0..total+3; result must be the last min(n,total) of the reference sort (exact when strict-total), heads the unreferenced among them, and n >= total identical to the unbounded merge of a twin; in a third of the cases the (windowed) log makes a second bounded merge, compared with a twin that made the same first merge and the unbounded second one. Exploration. Found and repaired the n > total panic.",
         "note": "Same trusted base as C01.",
     },
     "C17": {
         "technique": "property-based generation of histories + exhaustive enumeration of block-write prefixes (crash points) per history, with injected write failures; loads from truncated store views",
         "level": "fault_enumeration",
-        "text": "For every generated history over one shared store, EVERY write prefix is checked for causal closure (entries name only earlier blocks, manifests only stored heads), every value ever returned (append hash, manifest CID) is loaded from the prefix that existed at return time and from later prefixes (all of them in the thorough tier) and must reproduce the state at that moment; injected write failures must surface as errors and leave no trace. Crash points are enumerated exhaustively per history; histories are generated.",
+        "text": "For every generated history over one shared store, EVERY write prefix is checked for causal closure (entries name only earlier blocks, manifests only stored heads), every value ever returned (append hash, manifest CID) is loaded from the prefix that existed at return time and from later prefixes (all of them in the thorough tier) and must reproduce the state at that moment; injected write failures (of appends and of publications) must surface as errors and leave entries and heads unchanged - or return a value that is stored after all; half of the failed operations are repeated at once (publication again / same append by a twin replica); appends refused by an access controller although they reproduce a committed block must not disturb the store (the fake store models removals). Crash points are enumerated exhaustively per history; histories are generated.",
         "note": "Block writes are atomic in the fake store; replicas share one store as in the statement.",
     },
     "C18": {
@@ -135,7 +135,7 @@ META = {
     },
     "C19": {
         "technique": "property-based testing (rapid): order laws checked on all pairs/triples of generated entry pools; sort checked as metamorphic relation over generated permutations",
-        "text": "Generated-input exploration: every ordered pair and triple of rapid-generated pools of synthetic entries (equal/unequal times, ids with prefix relations, distinct hashes) is checked against irreflexivity, antisymmetry, transitivity, totality, causality (smaller time first), FWW == -LWW, and every sorter is checked to be deterministic over shuffles, a permutation of its input and ordered. Pure functions, so tens of thousands of pools per run; no proof of the laws for all inputs.",
+        "text": "Generated-input exploration: every ordered pair and triple of rapid-generated pools of synthetic entries (equal/unequal times, ids with prefix relations, distinct hashes incl. distinct identifiers over one shared digest) is checked against irreflexivity, antisymmetry, transitivity, totality, causality (smaller time first), FWW == -LWW, and every sorter is checked to be deterministic over shuffles, a permutation of its input and ordered. Pure functions, so tens of thousands of pools per run; no proof of the laws for all inputs.",
         "note": "Assumes non-negative clock times <= 2^62 (Lamport times); trusts Go's sort.SliceStable and the harness's re-statement of the laws.",
     },
     "C20": {
